@@ -34,13 +34,14 @@ def fuel : Nat := 4000
 
 /-- the subject connection as the harness sets it up (will set, clean session, client not reading):
 * `deafecho`:  the subject sends ring/packet + 1 = 5 echo packets
-* `deafflood`: it keeps sending (8 packets; the last ones never leave the client)
+* `deafflood`: it keeps sending until its writes block (16 packets offered; the incoming ring takes the 5th to
+  the 8th and the first 340 bytes of the 9th and is then completely full, the rest never leaves the client)
 * `deafsub`:   it sends nothing; a third party's processor delivers 4011-byte packets to it -/
 def initial (kind : String) : Option Mqtt.Model.Lifecycle.St :=
   let sh : Sh := { peerReads := false, willFlag := true, clean := true }
   match kind with
   | "deafecho" => some ({ sh := { sh with stream := List.replicate 5 echoPkt, wire := 5 * 4011 } } : Mqtt.Model.Lifecycle.St)
-  | "deafflood" => some ({ sh := { sh with stream := List.replicate 8 echoPkt, wire := 8 * 4011 } } : Mqtt.Model.Lifecycle.St)
+  | "deafflood" => some ({ sh := { sh with stream := List.replicate 16 echoPkt, wire := 16 * 4011 } } : Mqtt.Model.Lifecycle.St)
   | "deafsub" => some ({ sh := sh, ws := List.replicate 6 ⟨.check, 4011⟩ } : Mqtt.Model.Lifecycle.St)
   | _ => none
 
